@@ -446,7 +446,7 @@ PLANS["C19"] = dict(
                "signature manifests of that artifact, with frame and stability action properties; every history is executed against "
                "registry.NewRepository over a memory store and over on-disk OCI layouts (re-opened mid-history), auditing after every push all "
                "listings (with annotations), every fetch (bytes, media type) and the store's fetch log for content used before a refusal.",
-    level_note="Trusted: TLC, oras-go content stores (Predecessors). A remote registry (Referrers API branch) is not exercised.",
+    level_note="Trusted: TLC, oras-go content stores (Predecessors). The remote-registry branches (Referrers API, Blobs(), Manifests()) are exercised by the growth check X06.",
     rule="cases = push histories; every envelope distinct; all non-trivial (each history mixes artifacts/kinds); distinct = distinct history",
     exhaustive=False,
     phases=[
@@ -739,6 +739,20 @@ PLANS["X05"] = dict(
         gen=dict(module="MC_ProtoCodec", cfg=mc_cfg(["Inv_Total", "Inv_Emit"]), select=take_all),
         drive=dict(driver="protocodec"),
         validate=dict(module="Trace_ProtoCodec", cfg=trace_cfg()),
+    )],
+)
+
+PLANS["X06"] = dict(
+    level_text="growth: registry.Repository over a REMOTE repository (oras remote.Repository against an in-process distribution registry with separate blob and "
+               "manifest name spaces) on four referrers routes (Referrers API with client-side filter, with server-side filter, paged; referrers tag schema): "
+               "push histories with listing / fetch audits as in C19, the registry's content after every PushSignature, and notation.Sign / notation.Verify by tag and digest",
+    level_note="not a listed property (C19 is about OCI layouts); the registry is a harness component", rule="all histories of depth 2 (3 in the thorough tier) x 4 routes", exhaustive=False,
+    phases=[dict(
+        name="remote-histories",
+        gen=dict(module="MC_SigRepoRemote", cfg=lambda tier, seed: mc_cfg(["Inv_Remote", "Inv_Agree", "Inv_Emit"], consts=["Depth = 3" if tier == "thorough" else "Depth = 2", 'Subjects = {"s1", "s2"}'],
+                                                                          extra=["PROPERTY Prop_Frame", "PROPERTY Prop_Stable"]), select=slicer2(3000, 40000)),
+        drive=dict(driver="sigrepo-remote"),
+        validate=dict(module="Trace_SigRepoRemote", cfg=C19_TRACE),
     )],
 )
 
